@@ -28,11 +28,17 @@ def parseHexList (tok : String) : Option (List Bytes) :=
 or the root is a finished game -/
 def serveExact (depth : Int) (p : Pos) : Bool := depth == 1 || depth < 0 || p.gameOver.1
 
+def b01 (b : Bool) : Nat := if b then 1 else 0
+
+/-- the configuration of an engine, option switches in the positive sense (as the harness prints `pl.Cfg`) -/
+def fmtCfg (cfg : Search.Cfg) : String :=
+  s!"cfg=d{cfg.depth},sort{b01 (!cfg.opts.noSort)},null{b01 (!cfg.opts.noNullMove)},red{b01 (!cfg.opts.noReduceSlides)},mc{b01 cfg.opts.multiCut},dd{b01 cfg.opts.dedupSymmetry},me{cfg.maxEvals},rw{cfg.randomizeWindow}"
+
 def fmtNew (repl : Bool) (c : Serve.Cache Move) : String :=
   if repl then
     match c.player with
-    | some pl => s!"new tbl={pl.eng.table.size}"
-    | none => "new tbl=nil"
+    | some pl => s!"new tbl={pl.eng.table.size} {fmtCfg pl.cfg}"
+    | none => "new nil"
   else "reuse"
 
 /-- the moves of a PV replayed from `p`: index of the first one that is rejected -/
@@ -83,7 +89,7 @@ def handleServe : Handler := fun st op args =>
             else st.serve.analyzeCache
           let tbl := (Serve.playerCfg env.tableEntries depth precise).tableEntries.getD 0
           some ({ st with serve := { st.serve with analyzeCache := c } },
-            (if repl then s!"new tbl={tbl}" else "reuse") ++ " searched")
+            (if repl then s!"new tbl={tbl} {fmtCfg (Serve.playerCfg env.tableEntries depth precise)}" else "reuse") ++ " searched")
     | _, _ => some (st, "bad-op")
   | "sv.tak", [tps] =>
     match fromHex tps with
